@@ -644,7 +644,8 @@ theorem scanFillWith_noPsize (p1 p2 : Nat → Func → Nat) (r : Recs) (base ins
     first line record containing it; else the greatest PUBLIC at or below the address unless a
     valid FUNC record starts between it and the address. For every file satisfying
     `NonOverlapping` (valid FUNC ranges; line ranges within a FUNC; same-depth INLINE ranges
-    within a FUNC: pairwise disjoint) and `WinNonOverlapping` (valid STACK WIN ranges of each type
+    within a FUNC: pairwise disjoint — where a size-0 INLINE range strictly inside a sibling counts
+    as overlapping it, see §5b) and `WinNonOverlapping` (valid STACK WIN ranges of each type
     pairwise disjoint, fields within their `u32` types), every base and every instruction,
     `fill_symbol`'s whole answer — function name, base and parameter size, source file/line/base,
     inline frames — is exactly that of the scan. -/
@@ -666,6 +667,33 @@ theorem eq_linear_scan_any_win {r : Recs} {sf : SymFile} (hb : build r = .ok sf)
     fr.noPsize = (scanFill r base instr).noPsize := by
   rw [eq_linear_scan_core hb hno h]
   exact scanFillWith_noPsize _ _ _ _ _
+
+/-! ## 5b. known finding `C11-zero-size-inlinee`: why `NonOverlapping` counts a size-0 INLINE range
+      strictly inside a sibling as an overlap
+
+  `finish_item` filters size-0 *line* records but keeps size-0 *inlinees*. Such a record is an empty
+  range (it overlaps nothing, it covers nothing), but in the sorted inlinee vector it sits between
+  its sibling's start and the queried address, so the `(depth, address)` binary search lands on it
+  and `get_inlinee_at_depth` answers `None` for every address behind it. `eq_linear_scan`'s
+  hypothesis excludes exactly this constellation; the witness below shows it cannot be dropped.
+  (The `symb` engine reports it as class `zero-size-inlinee-hides-sibling`, listed in
+  known_findings.d/C11.json.) -/
+
+/-- `FUNC 2b 37 28 f` with `INLINE 0 8 2 1 2b 6 2c 0`: ranges `[43,49)` and the empty `[44,44)` -/
+def zeroInl : Func := ⟨43, 55, 40, [1], [], [⟨0, 43, 6, 2, 8, 1⟩, ⟨0, 44, 0, 2, 8, 1⟩]⟩
+
+/-- at address 48 the linear scan finds the inlinee `[43,49)`, the lookup the code performs on the
+    sorted inlinee list finds nothing: the empty range at 44 hides it -/
+theorem zero_size_inlinee_hides_sibling :
+    scanInl zeroInl 0 48 = some ⟨0, 43, 6, 2, 8, 1⟩ ∧
+    inlineeAt (finOf zeroInl).inls 0 48 = .ok none := by
+  refine ⟨by decide, ?_⟩
+  have hs : (finOf zeroInl).inls = zeroInl.inls := by
+    show zeroInl.inls.mergeSort inlLe = zeroInl.inls
+    apply List.mergeSort_of_pairwise
+    simp [zeroInl, inlLe, Inl.key, lexLe]
+  rw [hs]
+  rfl
 
 /-! ## 6. building the tables never fails (C08), restated for whole files -/
 
